@@ -30,26 +30,63 @@ def run(tier, seed):
     common.write_ndjson(cp, cases)
     rp = os.path.join(d, "report.json")
     reps = 40 if tier == "quick" else 30
+    for stale in (rp, rp + ".cur"):
+        if os.path.exists(stale):
+            os.remove(stale)
     rc, so, se = common.run_bin("scope_drv", [cp, rp, seed, reps], timeout=(600 if tier == "quick" else 3000))
-    if rc != 0 and not os.path.exists(rp):
-        raise common.ToolError("scope_drv failed: " + se[-800:])
-    rep = common.load_report(rp)
+    if rc != 0 and (not os.path.exists(rp) or os.path.getsize(rp) == 0):
+        rep = {"evaluations": 1, "distinct": 1, "samples": [], "failures": died(d, rp, rc, se, seed), "counters": {}, "notes": []}
+    else:
+        rep = common.load_report(rp)
     cov = {"states": r.distinct, "transitions": r.generated, "traces_validated_against_impl": rep["evaluations"], "samples": rep["samples"][:3] or [{}],
            "evaluations": rep["evaluations"], "distinct_nontrivial": rep["distinct"],
            "rule": f"programs = every task tree with <= {maxtasks} tasks over kinds {{ok, e1, e2, panic, wait_ok, wait_e3}} x main/background x parent x body "
-                   "result x outside cancellation; model: every schedule of every program; code: each non-hanging program executed "
+                   "result {ok, e0, panic of the root task} x outside cancellation; model: every schedule of every program; code: each non-hanging program executed "
                    f"{reps} times with random yields on 4 worker threads; distinct = programs executed",
            "exhaustive": True, "programs_skipped_may_hang": rep["counters"].get("programs_skipped_may_hang", 0),
            "distinct_program_outcomes_observed": rep["counters"].get("distinct_program_outcomes_observed", 0),
            "program_outcomes_in_spec": len({(str(c["prog"]), c["outcome"]) for c in cases})}
     common.write_evidence(PROP, tier, seed, "model_checking", cov,
                           ["thread schedules of the real runtime are whatever tokio produces under random yields (not enumerated); the specification's outcome "
-                           "set per program is exhaustive", "nested scopes, blocking tasks and tasks spawned late (after their parent's first step) are not in the program space",
+                           "set per program is exhaustive", "nested scopes (other than as a way of waiting / as the caller's context) and tasks spawned late (after their parent's first step) are not in the program space",
                            "'no other task failed strictly before it' is checked through the outcome sets (e.g. an error of a task that only fails after observing "
-                           "cancellation caused by another failure can never be the result)"], time.time() - t0, len(rep["failures"]))
+                           "cancellation caused by another failure can never be the result)",
+                           "every third execution runs the program as a blocking scope (scope::run_blocking!, spawn_blocking / spawn_bg_blocking, blocking waits)"],
+                          time.time() - t0, len(rep["failures"]))
     common.handle_failures(PROP, rep["failures"], "program_failure")
     log(f"[C17] ok: {r.distinct} model states, {rep['distinct']} programs x {reps} runs")
     return 0
+
+
+def died(d, rp, rc, se, seed):
+    """The driver process died (signal / abort) while executing a program with the real scope. Tasks borrow the scope and its context for the scope's lifetime
+    (that is what 'returns only after every task has finished' buys): a scope that returns early leaves them with dangling borrows. The program at fault is re-run
+    alone, twice; only a reproducible death is a verdict."""
+    import json
+    cur = rp + ".cur"
+    if not os.path.exists(cur):
+        raise common.ToolError(f"scope_drv failed (rc={rc}): " + se[-800:])
+    c = json.load(open(cur))
+    cases = [{"prog": c["prog"], "outcome": o} for o in c["allowed"]]
+    cp = os.path.join(d, "died_case.ndjson")
+    common.write_ndjson(cp, cases)
+    again = 0
+    for k in range(2):
+        rp2 = os.path.join(d, f"died_report_{k}.json")
+        if os.path.exists(rp2):
+            os.remove(rp2)
+        rc2, so2, se2 = common.run_bin("scope_drv", [cp, rp2, seed + k, 300], timeout=600)
+        if rc2 != 0 and (not os.path.exists(rp2) or os.path.getsize(rp2) == 0):
+            again += 1
+        elif os.path.exists(rp2):
+            rep2 = common.load_report(rp2)
+            if rep2["failures"]:
+                return rep2["failures"]
+    if again == 2:
+        return [{"key": "scope_process_died", "what": f"the process executing this program with the real scope dies (rc={rc}; reproduced twice on the program alone): "
+                                       "the scope returned - or unwound - while tasks spawned in it were still running, leaving them with dangling borrows of the scope and its context",
+                                       "case": {"prog": c["prog"], "seed": c["seed"], "allowed": c["allowed"]}}]
+    raise common.ToolError(f"scope_drv died once (rc={rc}) on {json.dumps(c['prog'])} but not when the program was re-run alone: " + se[-600:])
 
 
 def replay(path, seed):
